@@ -84,6 +84,27 @@ Decided:
                              effect, incl. eagerly evaluated arguments of then_some / unwrap_or / map_or (selected_paths)
      three-valued verdicts   guard / sign-guard / leading-zero / split: VIOLATED when a way without any test exists, UNPROVEN
                              when every open way passes a test of the value that was not understood
+  Robustness round 5 (C09_helpers):
+     validator scope         path conditions are taken inside one type's validator region (PathConds(scope=..)): a private
+                             helper shared by both version types (`parse_ascii_digits`) is entered from this type's call
+                             sites only, so what the other type tests in front of its call neither helps nor hurts; a way
+                             through such a helper that a site's constant argument rules out (`parse_component(s, false)`
+                             with `if allow_leading_zeros { .. }` inside) is not a way from that site (PathConds.paths)
+     validation after parse  `s.parse::<u64>().ok().filter(|n| n.to_string() == s)`, `Ok(n) if n.to_string() == s => Some(n)`:
+                             sign-guard / leading-zero also hold when every way the validator stage *yields* the number
+                             (yield_ways) passes `u64::to_string(number) == parsed string` (roundtrip_literal; that the
+                             rendering is u64's plain Display is read off the MIR operand of the comparison, not off the
+                             value, which sees through to_string); a stage that hands the number on untested is followed
+                             to the stages calling it (post_guard)
+                             to the stages calling it (post_guard); parsed inside try_from by a counting loop whose
+                             exhaustion precedes every Ok, the ways round the loop (to its latches) take the place of the
+                             ways the stage yields; a number tested in any other way after an unguarded parse: UNPROVEN
+     result-gates            (new obligation) on the ways a stage yields a number, the number is not tested in any other way
+                             (`n < 100`; for BuildpackApi also the re-rendering test, which would reject "01"); parse-gates
+                             also reads the conditions about the parsed *string* that follow the parse on those ways
+     component-value         a closure run by an Option / Result combinator yields in terms of the payload it is run on
+                             (`r.ok().and_then(|n| c.then_some(n))`, lifted); `x.ok()?` carries the payload of x; `?` leaving
+                             with the failure carries none
 Not decided: the u64 overflow boundary; display/parse being inverse for all triples (core formatting trusted).
 """
 import json
@@ -393,7 +414,7 @@ def run(ctx, rep):
     def is_int_parse(c):
         return _is_int_parse_call(c, sl)
 
-    def sign_guard(path, pv):
+    def sign_guard(path, pv, PC=PC):
         for l in path:
             if H.digits_literal(PC, l, pv) is True:
                 return 'a digits-only test'
@@ -407,6 +428,7 @@ def run(ctx, rep):
 
     all_parses = {}
     regions = {}
+    VPC = {}    # path conditions inside one validator: a helper shared with the other validator is entered from this one's sites
     for t, nparts in ((VER, 3), (API, 2)):
         tf = prog.fns.get('<%s as std::convert::TryFrom<std::string::String>>::try_from' % t)
         short = t.split('::')[-1]
@@ -416,6 +438,7 @@ def run(ctx, rep):
         rep.analysed(tf)
         where = '%s:%d' % (tf.file, tf.line)
         fns = regions[t] = H.region(prog, tf)
+        PCt = VPC[t] = H.PathConds(prog, sl, scope={g.path for g in fns})
         parses = []
         for g in fns:
             for c in g.calls:
@@ -426,17 +449,24 @@ def run(ctx, rep):
         rep.check(len(parses) >= 1, 'R6', short + '/parse-sites', where, '%d integer parse site(s)' % len(parses), 'no integer parse found')
         for i, (g, c) in enumerate(parses):
             pv = sl.operand(g, c.args[0])
-            paths = PC.paths(g, c.bb)
-            ok = H.holds_on_all(paths, lambda p, pv=pv: sign_guard(p, pv) is not None)
-            gd = ' / '.join(sorted({sign_guard(p, pv) for p in paths if H.consistent(p)} - {None})) if ok else None
-            if not ok and H.scanned(PC, g, c.bb, pv):
+            paths = PCt.paths(g, c.bb)
+            ok = H.holds_on_all(paths, lambda p, pv=pv: sign_guard(p, pv, PCt) is not None)
+            gd = ' / '.join(sorted({sign_guard(p, pv, PCt) for p in paths if H.consistent(p)} - {None})) if ok else None
+            if not ok and H.scanned(PCt, g, c.bb, pv):
                 # reached only after a loop over the characters that leaves on the first one that is no digit
                 ok, gd = True, 'a loop over its characters that rejects the first non-digit'
-            open_paths = [p for p in (paths or []) if H.consistent(p) and sign_guard(p, pv) is None]
-            if not ok and open_paths and all(unknown_tests(PC, p, pv, g, t) for p in open_paths):
+            post = post_guard(prog, sl, PCt, g, c, pv) if not ok else None
+            if post is True:
+                # validated after the parse: the number is only yielded when it re-renders to the parsed string
+                ok, gd = True, 'the number being yielded only when u64::to_string of it equals the parsed string'
+            open_paths = [p for p in (paths or []) if H.consistent(p) and sign_guard(p, pv, PCt) is None]
+            if not ok and post == 'unknown':
+                rep.unproven('R6', '%s/sign-guard#%d' % (short, i), c.where(), 'the parse is not guarded, and the number it yields is tested afterwards in a way that was '
+                             'not recognised as "its decimal rendering equals the parsed string"', {'function': g.path})
+            elif not ok and open_paths and all(unknown_tests(PCt, p, pv, g, t) for p in open_paths):
                 # every unguarded way to the parse passes a test of the string that was not understood
                 rep.unproven('R6', '%s/sign-guard#%d' % (short, i), c.where(), 'the parsed string is tested in a way that was not recognised as a digits-only test: %s'
-                             % unknown_tests(PC, open_paths[0], pv, g, t)[:2], {'function': g.path})
+                             % unknown_tests(PCt, open_paths[0], pv, g, t)[:2], {'function': g.path})
             else:
                 rep.check(ok, 'R6', '%s/sign-guard#%d' % (short, i), c.where(), 'integer parse guarded by %s' % gd,
                           'u64::from_str accepts a leading "+": the parse of a version component is not guarded by a digits-only test, so e.g. "+1" is accepted',
@@ -628,17 +658,21 @@ def run(ctx, rep):
         mine = all_parses.get(VER, [])
         lz = bool(mine)
         lz_unknown = bool(mine)
+        PCv = VPC.get(VER, PC)
         for g, c in mine:
             pv = sl.operand(g, c.args[0])
-            paths = PC.paths(g, c.bb)
+            paths = PCv.paths(g, c.bb)
             tested = any(H.zero_prefix_literal(l, pv) in ('no', 'other') for p in paths for l in p)
             here = tested and H.holds_on_all(paths, lambda p, pv=pv: no_leading_zero(p, pv))
+            post = post_guard(prog, sl, PCv, g, c, pv) if not here else None
+            # u64::to_string never writes a redundant leading zero: a number that re-renders to the parsed string had none
+            here = here or post is True
             lz = lz and here
             if not here:
                 open_paths = [p for p in (paths or []) if H.consistent(p) and not no_leading_zero(p, pv)]
-                lz_unknown = lz_unknown and bool(open_paths) and all(unknown_tests(PC, p, pv, g, VER) for p in open_paths)
+                lz_unknown = lz_unknown and (post == 'unknown' or (bool(open_paths) and all(unknown_tests(PCv, p, pv, g, VER) for p in open_paths)))
         if not lz and lz_unknown:
-            rep.unproven('R6', 'BuildpackVersion/leading-zero', where, 'the parsed component is tested in a way that was not recognised as the leading-zero rejection')
+            rep.unproven('R6', 'BuildpackVersion/leading-zero', where, 'the parsed component (or the number parsed from it) is tested in a way that was not recognised as the leading-zero rejection')
         else:
             rep.check(lz, 'R6', 'BuildpackVersion/leading-zero', where, 'components with a redundant leading zero are rejected before parsing',
                       'leading-zero rejection (starts_with("0") && != "0" => reject) not found in front of the integer parse')
@@ -663,7 +697,61 @@ def run(ctx, rep):
             rep.unproven('R6', 'BuildpackApi/split', where, "how the API version string is cut into major and minor was not recognised (no split_once('.') / splitn(2, '.'))")
         else:
             rep.check(by_unwrap_or or by_value, 'R6', 'BuildpackApi/split', where, "split_once('.') with default minor \"0\"", 'API version is not split_once(".") with default minor "0"')
-    deepen(ctx, rep, prog, sl, PC, T, info, regions, all_parses)
+    deepen(ctx, rep, prog, sl, PC, T, info, regions, all_parses, VPC)
+
+
+def post_guard(prog, sl, PC, g, c, pv, depth=0):
+    """validation after the integer parse c (in g, of the string pv): True when every way the validator stage yields
+    the parsed number passes `u64::to_string(number) == pv` (the number's canonical rendering is the parsed string: only
+    ASCII digits, no sign, no redundant leading zero); 'unknown' when every way that does not passes some other test of the
+    number; else False.  A stage that hands the number on untested (`fn parse_number(s) -> Option<u64> { s.parse().ok() }`)
+    is followed to the stages that call it, with its call as the source of the number."""
+    def is_src(cc):
+        return cc.fn is c.fn and cc.bb == c.bb
+    if depth > 2:
+        return False
+    if not _yields_u64(g):
+        # not a stage that yields the number (parsed inside try_from, in a loop): how a later test of the number bears on
+        # what is accepted is not decided here
+        # Parsed in a loop that counts the components it takes (C09_helpers.CountingLoop) with every Ok behind the loop's
+        # exhaustion: an element whose iteration does not reach the latch leaves the loop for good and cannot reach Ok, so
+        # the accepted numbers are those whose iteration passes the re-rendering test on every way round the loop
+        oks = [d[1] for d in g.whole_defs(0) if d[0] == 'stmt' and d[3]['r'] == 'agg' and d[3].get('variant') == 'Ok']
+        for cl in H.counting_loops(g, sl):
+            L = cl.loop
+            if c.bb in L.body and L.latches and oks and all(H.exact_count(g, sl, cl, bi) is not None for bi in oks) and \
+                    all(H.holds_on_all(PC.paths(g, lb), lambda p: any(H.roundtrip_literal(PC, l, pv, c) is True for l in p)) for lb in L.latches):
+                return True
+        for rb in g.return_blocks():
+            if any(H.number_tests(PC, p, is_src) for p in PC.paths(g, rb) if H.consistent(p)):
+                return 'unknown'
+        return False
+    yw = H.yield_ways(PC, g)
+    if yw is None:
+        return False
+    ways = [p for p in yw if H.consistent(p)]
+    if not ways:
+        return False
+
+    open_ways = [p for p in ways if not any(H.roundtrip_literal(PC, l, pv, c) is True for l in p)]
+    if not open_ways:
+        return True
+    if all(H.number_tests(PC, p, is_src) for p in open_ways):
+        return 'unknown'
+    # handed on as it is: the callers of this stage inside the validator
+    spv = strip(pv)
+    if g.kind in ('Fn', 'AssocFn') and g.vis != 'pub' and not g.impl_trait and spv[0] == 'param' and spv[1] == g.path:
+        refs = prog.callers().get(g.path, [])
+        if PC.scope is not None:
+            refs = [cs for cs in refs if cs.fn.path in PC.scope]
+        sites = [cs for cs in refs if not cs.indirect and cs.name == g.path and cs.fn.path != g.path and spv[2] < len(cs.args)]
+        if sites and len(sites) == len(refs):
+            res = [post_guard(prog, sl, PC, cs.fn, cs, sl.operand(cs.fn, cs.args[spv[2]]), depth + 1) for cs in sites]
+            if all(r is True for r in res):
+                return True
+            if all(r in (True, 'unknown') for r in res):
+                return 'unknown'
+    return False
 
 
 def known_test(PC, l, pv, g, t):
@@ -837,7 +925,7 @@ def _is_int_parse_call(c, sl=None):
     return False
 
 
-def deepen(ctx, rep, prog, sl, PC, T, info, regions, all_parses):
+def deepen(ctx, rep, prog, sl, PC, T, info, regions, all_parses, VPC=None):
     from .lib.value import canon
     # ---- newtypes ---------------------------------------------------------------------------------------------
     for t in T['types']:
@@ -1032,6 +1120,7 @@ def deepen(ctx, rep, prog, sl, PC, T, info, regions, all_parses):
             rep.check(ok, 'R4', 'proc-macro/operands', c.where(), 'the content of the `value` literal is matched against the compiled content of the `regex` literal',
                       'the literal macro does not match the literal itself against the regex itself: %s' % why)
     # ---- versions ------------------------------------------------------------------------------------------------
+    PCall = PC
     for t, split_name in ((VER, 'core::str::<impl str>::split'), (API, 'core::str::<impl str>::split_once')):
         tf = prog.fns.get('<%s as std::convert::TryFrom<std::string::String>>::try_from' % t)
         short = t.split('::')[-1]
@@ -1039,6 +1128,7 @@ def deepen(ctx, rep, prog, sl, PC, T, info, regions, all_parses):
             continue
         where = '%s:%d' % (tf.file, tf.line)
         fns = regions[t]
+        PC = (VPC or {}).get(t, PCall)     # path conditions inside this type's validator
         # the string that is split is the argument itself
         sps = [(g, c) for g in fns for c in g.calls if c.name == split_name and len(c.args) == 2]
         if t == API:
@@ -1190,6 +1280,23 @@ def deepen(ctx, rep, prog, sl, PC, T, info, regions, all_parses):
                 for l in p:
                     if mentions(l) and not spec_gate(l):
                         extra.append(repr(l)[:140])
+            if _yields_u64(g):
+                # .. and after the parse, on the ways the stage yields the number (`.filter(|_| s.len() < 5)`): whether the
+                # parse succeeded, and for BuildpackVersion the number re-rendering to the string, are the spec's
+                seen = {(l.kind, l.key, l.outcome) for p in paths for l in p}
+                for p in (H.yield_ways(PC, g) or []):
+                    if not H.consistent(p):
+                        continue
+                    for l in p:
+                        if (l.kind, l.key, l.outcome) in seen or not mentions(l) or spec_gate(l):
+                            continue
+                        if H.is_source_success(prog, l, lambda cc, c=c: cc.fn is c.fn and cc.bb == c.bb) is True:
+                            continue
+                        if t == VER and H.roundtrip_literal(PC, l, pv, c) is True:
+                            continue
+                        if t == API and H.roundtrip_literal(PC, l, pv, c) is not None:
+                            continue    # reported by result-gates
+                        extra.append('after the parse: ' + repr(l)[:120])
             if paths and not extra:
                 # exactness, decided on one representative per class of digit strings: those the grammar allows reach the
                 # parse (for versions: "0", one digit, several digits without a leading zero)
@@ -1202,6 +1309,29 @@ def deepen(ctx, rep, prog, sl, PC, T, info, regions, all_parses):
             else:
                 rep.unproven('R6', '%s/parse-gates#%d' % (short, i), c.where(),
                              'a component is also tested in a way not shown to follow from the grammar (valid components may be rejected): %s' % sorted(set(extra))[:3])
+        # conditions about the *number* after the parse: a parsed number is yielded as it is — the only test of it that
+        # follows from the grammar is, for BuildpackVersion, that it re-renders to the parsed string (no sign, no redundant
+        # leading zero); anything else (`n < 100`, for BuildpackApi also the re-rendering, which rejects "01") rejects
+        # strings of the grammar
+        vnames = {g.path for g in fns if g is not tf and _yields_u64(g)}
+
+        def number_source(cc, vnames=vnames):
+            return _is_int_parse_call(cc, sl) or cc.name in vnames or cc.res in vnames
+        after = []
+        for g in fns:
+            if g is tf or not _yields_u64(g):
+                continue
+            for p in (H.yield_ways(PC, g) or []):
+                if not H.consistent(p):
+                    continue
+                for l in H.number_tests(PC, p, number_source):
+                    if not (t == VER and H.roundtrip_any(PC, l, number_source) is True):
+                        after.append(repr(l)[:140])
+        if not after:
+            rep.holds('R6', short + '/result-gates', where, 'a parsed number is yielded without further conditions on it')
+        else:
+            rep.unproven('R6', short + '/result-gates', where, 'the parsed number is also tested in a way not shown to follow from the grammar '
+                         '(valid components may be rejected): %s' % sorted(set(after))[:3])
         # every optional integer of the validator is the parse's success payload
         opt = [g for g in fns if g is not tf and _yields_u64(g)]
         ok = bool(opt)
@@ -1210,11 +1340,18 @@ def deepen(ctx, rep, prog, sl, PC, T, info, regions, all_parses):
             ps = H.payloads(sl, sl.local(g, 0))
             ok = ok and bool(ps)
             for p in ps:
-                core = p[1] if p[0] == 'unwrap' else None
-                good = core is not None and core[0] == 'call' and _is_int_parse_call(H.call_of(prog, core), sl)
-                if not good:
-                    got.append('%s yields %s' % (g.path.split('::')[-1], vstr(p)[:80]))
-                ok = ok and good
+                # a closure run by an Option / Result combinator on the payload of its receiver (`r.ok().and_then(|n| ..)`)
+                # yields in terms of that payload; `x.ok()?` carries the payload of x
+                cands = [p]
+                if any(x[0] == 'param' and x[1] == g.path for x in walk(p)):
+                    cands = [vals[0] for top, vals in H.lift(prog, sl, g, [p], tf)]
+                for q in cands:
+                    q = H.drop_adapters(q)
+                    core = q[1] if q[0] == 'unwrap' else None
+                    good = core is not None and core[0] == 'call' and _is_int_parse_call(H.call_of(prog, core), sl)
+                    if not good:
+                        got.append('%s yields %s' % (g.path.split('::')[-1], vstr(q)[:80]))
+                    ok = ok and good
         if not opt:
             # no Option<u64> stage: the numbers are read off the value that try_from returns — every integer field of
             # every Ok payload is the success payload of the integer parse, directly or through a fixed-size array that
